@@ -108,6 +108,9 @@ namespace
             std::size_t n  = array ? static_cast<std::size_t>(c.arg(0)) : 1;
             std::size_t sz = static_cast<std::size_t>(c.arg(array ? 1 : 0));
             std::size_t al = static_cast<std::size_t>(c.arg(array ? 2 : 1, 1));
+            // memory_pool's member functions take no size: what is handed out is whole nodes
+            if (cur->member && std::string(cur->family()) == "pool")
+                sz = cur->node_size();
             std::size_t mn, ma, mal;
             cur->maxes(mn, ma, mal);
             Scal        s0 = cur->scal(sz);
@@ -737,6 +740,7 @@ int main(int argc, char** argv)
             {
                 world().init();
                 world().carve = x.num("carve") != 0;
+                world().down  = x.num("down") != 0;
                 Runner r(x);
                 r.run();
             });
